@@ -972,6 +972,8 @@ def rawtext_end_rule(ctx):
             if not (n.get("k") == "mcall" and n["m"] in ("skip_until_before", "skip_until_after") and n["args"]):
                 continue
             a0 = sir.strip_ref(n["args"][0])
+            if sir.const_text(a0) is not None:      # `const END: &str = "</wxs"`
+                a0 = {"k": "lit", "t": "str", "v": sir.const_text(a0)}
             if not (a0.get("k") == "lit" and isinstance(a0.get("v"), str) and a0["v"].startswith("</") and len(a0["v"]) > 2):
                 continue
             pm = pm or sir.parent_map(f.body)
@@ -992,7 +994,7 @@ def rawtext_end_rule(ctx):
                           "after `%s` the look-ahead asks %s" % (a0["v"], sorted(preds)) + ("" if ok else ": the tag-name scanner continues a name on `Ident::is_following_char`"),
                           witness=None if ok or not preds else '<wxs module="m">var s = "</wxs-x>"; exports.s = s</wxs> : the script is cut inside the string literal'))
     if not obs:
-        obs.append(ob("C02.userjs/raw-text-end/anchor", False, "parse/tag.rs", "no raw-text scan (`skip_until_before(\"</..\")`) found in the parser"))
+        obs.append(ob("C02.userjs/raw-text-end/anchor", None, "parse/tag.rs", "no raw-text scan (`skip_until_before(\"</..\")`) found in the parser"))
     return obs
 
 
